@@ -19,6 +19,8 @@ CHECKS = {
          "Seeded simulated runs of the real store (real files on tmpfs behind the libc interposer, real background thread under the simulated scheduler and clock) against a BTreeMap model, operation by operation plus periodic full scans; configurations include max_file_size 0/1, cache 0, pool 0, values around and above the 8 KiB buffer and above the file limit, merges by hook and by the store's own timer, legal short writes/EINTR/latency."),
  "C02": ("exploration", "§6 C02", "deterministic simulation: close/reopen cycles vs. map model, seeded swarm search",
          "Histories of set/delete across many data files followed by 1-4 reopen cycles (also back to back, also while the old background thread is still alive); after each reopen a full scan must equal the model and a reopen without writes must leave the set of non-empty data files unchanged."),
+ "C04": ("exploration", "§6 C04", "deterministic simulation: seeded random / PCT schedules of writer, reader and merger threads; per-key linearizability check (Wing-Gong search) of the recorded history against a register model",
+         "1-3 writer threads, 1-3 reader threads and optionally a merging thread (hook) or the store's own timer-driven merges share one store; every lock, atomic, queue operation and every file-system call is a scheduling point decided by the seeded scheduler (random with 2-40% switch probability, PCT depth 1-5). Values straddle the 8 KiB buffer (two-write entries), pool 1-4, cache 0-256, small file limits. Oracles: no operation errs or panics, each key's history with a final quiescent read is linearizable, no deadlock/livelock (facts from the scheduler's wait-for state), the reader pool is back at capacity."),
  "C05": ("exploration", "§6 C05", "deterministic simulation: scan-before == scan-after == scan-after-reopen == model around every merge, thresholds re-tuned from live statistics",
          "Histories with merges at arbitrary positions under all threshold classes, including thresholds re-tuned from the live per-file statistics (Retune) so that strict subsets of files are selected, followed by reopen cycles."),
  "C12": ("exploration", "§6 C12", "deterministic simulation: recovery of the closed directory with and without hint files, differential oracle",
@@ -33,6 +35,10 @@ CHECKS = {
          "Workloads under sync=always; every write/create/unlink/fsync record is a power-loss point with two images each: everything unsynced lost, and per-file random surviving lengths between synced and written length (torn tails, hint file ahead of data file). Same recovery oracle as C03."),
  "C20": ("fault_enumeration", "§6 C20", "deterministic simulation with I/O fault injection: one transient errno at each individual write/create/fsync/unlink call (thorough: also read-side calls), one fault per run, every position",
          "A fault-free pass of the workload (plus a final merge and close/reopen) lists its faultable calls; then the workload is re-run once per position with that call failed (ENOSPC/EIO/EDQUOT/EMFILE/EACCES; writes also as short-write-then-error). The failed operation must return Err, every other key must read the model value at once, all later operations must succeed and behave, a later merge must succeed, and after close/reopen every acknowledged key reads its value."),
+ "C17": ("exploration", "§6 C17", "deterministic simulation on the discrete-event clock: the store's background thread (adopted through pthread_create interposition) under seeded schedules, drop at generated instants, stale-handle use, immediate reopen, open/close cycles",
+         "Merge policy always / interval sync with check intervals from 10 ms to 1 h, disk latency stretching merges and syncs, 0-2 client threads racing the drop. Oracles: every operation invoked through a handle after the drop returned yields the 'closed' error; operations racing the drop go either way and define the model; the directory opens again at once and holds exactly the acknowledged contents; every background worker exits without the simulated clock having to reach its next timer (slack = injected disk latency only); no store descriptor stays open after the cycles."),
+ "C18": ("exploration", "§6 C18", "deterministic simulation on the discrete-event clock: triggers placed just above / exactly at / below the statistics a workload produced; merges and fsyncs observed in the I/O log with simulated timestamps",
+         "Phase 1 produces a write pattern with background tasks off; phase 2 reopens with policy never/always and triggers set relative to the real per-file statistics (dead bytes or fragmentation just crossed, exactly equal, far above, far below), check intervals 10 ms - 1 h, jitter 0-1 with thread_rng forced to range extremes; then only simulated time passes. Oracles: never => no merge; trigger exceeded => first merge within interval*(1+jitter); not exceeded => no merge within 3 such spans; interval sync => no fsync gap longer than the interval and the forced file is the active one."),
  "C19": ("exploration", "§6 C19", "deterministic simulation: verif_dump bookkeeping vs. independent scan of the files after every operation",
          "After every operation the index and per-file live/dead/dead_bytes counters (verif_dump) are compared with an independent decoder's scan of the shadow files; overflow checks are on in the shadow build so counter underflow panics."),
 }
